@@ -3,7 +3,7 @@
 From Coq Require Import List ZArith NArith Bool Arith String.
 Import ListNotations.
 From DD Require Import Base.Sx Base.PyStr Base.Value Diff.Tree Diff.DiffModel Hash.HashModel
-  DiffIO.DiffIOModel DiffIO.DiffIOShow Options.OptModel HashDiff.HashDiffModel HashDiff.HashDiffProofsAtoms HashDiff.HashDiffProofsLift HashDiff.HashDiffProofsKeys HashDiff.HashDiffProofsParts.
+  DiffIO.DiffIOModel DiffIO.DiffIOShow DiffIO.DiffIOMemo Options.OptModel HashDiff.HashDiffModel HashDiff.HashDiffProofsAtoms HashDiff.HashDiffProofsLift HashDiff.HashDiffProofsKeys HashDiff.HashDiffProofsParts.
 Local Open Scope string_scope.
 
 (* the hasher of the model runs: hex of the UTF-8 bytes behind a letter, so that the
@@ -55,13 +55,22 @@ Definition g2 (c : cfg) (F : opts) (rep : bool) (t1 t2 : value) : list bool :=
   [lift_guard c F rep t1 t2; lift_guardb c F rep t1 t2].
 Definition run_c12_guards2 (l : list (list bool)) : string := run_c12_guards (List.concat l).
 
-(* EVERY hypothesis of the C12 theorems on one generated case, one character each:
-   0 lift_guard   1 lift_guardb   2 lg_tag   3 lg_ascii   4 lg_k9 (exact)   5 the K9 component of rounds 1-2
-   6 lg_cohk   7 lg_keyb   8 goodv t1   9 goodv t2   10 wf t1   11 wf t2   12 alias_free t1   13 alias_free t2
-   14 shared F   15 threshold <= 1   16 the guard of rounds 1-2 *)
+(* EVERY hypothesis of the C12 theorems on one generated case, one character each (the composite
+   guards are the conjunctions of these components: HashDiffProofsParts.lift_guard_parts,
+   lift_guardb_parts, old_lift_guard by definition - the harness forms them):
+   0 lg_tag   1 lg_ascii   2 lg_k9 (exact)   3 the K9 component of rounds 1-2   4 lg_cohk   5 lg_keyb
+   6 goodv t1   7 goodv t2   8 wf t1   9 wf t2   10 alias_free t1   11 alias_free t2   12 shared F   13 threshold <= 1 *)
 Definition gparts (c : cfg) (F : opts) (rep : bool) (t1 t2 : value) : list bool :=
-  [lift_guard c F rep t1 t2; lift_guardb c F rep t1 t2; lg_tag F t1 t2; lg_ascii t1 t2; lg_k9 F t1 t2;
+  [lg_tag F t1 t2; lg_ascii t1 t2; lg_k9 F t1 t2;
    forallb (fun a => forallb (old_k9 F a) (lg_atoms t1 t2)) (lg_atoms t1 t2);
    lg_cohk F t1 t2; lg_keyb F t1 t2; goodv c F rep t1; goodv c F rep t2;
-   wf t1; wf t2; alias_free t1; alias_free t2; shared F; Nat.leb (thr_num c) (thr_den c);
-   old_lift_guard c F rep t1 t2].
+   wf t1; wf t2; alias_free t1; alias_free t2; shared F; Nat.leb (thr_num c) (thr_den c)].
+
+(* default options WITH the `hashes` tables threaded: DeepHash(v)[v] on its own fresh table per value
+   (HashModel.deephash: an ==-alias inside ONE value gets the hash of the first), the diff engine with
+   the ONE table shared by all the DeepHash calls of the run (DiffIO/DiffIOMemo.v).  Used for the pairs
+   with ==-aliasing atoms, which the memo-free models do not describe (finding K2). *)
+Definition run_c12_memo (c : cfg) (rep : bool) (ps : list (path * list (nat * nat))) (t1 t2 : value) : sx :=
+  SL [sx_bool (pystr_eqb (deephash xhash (io_opts c rep) t1) (deephash xhash (io_opts c rep) t2));
+      SA (match fst (fst (run_diff_io_m xhash (fun _ _ => []) (fun _ => false) (fun _ => false) c rep (tbl_pairs ps) t1 t2)) with
+          | [] => "empty" | _ :: _ => "nonempty" end)].
